@@ -42,11 +42,28 @@ def type_map(t: type) -> FormatListType:  # noqa: PLR0911
     raise NotImplementedError(t, " unknown")
 
 
+def _to_tuple(value: Any) -> tuple:  # noqa: ANN401
+    """
+    Unpack rule that convert_to_payload installs for a field annotated as a tuple.
+    """
+    return tuple(value)
+
+
+def _to_set(value: Any) -> set:  # noqa: ANN401
+    """
+    Unpack rule that convert_to_payload installs for a field annotated as a set.
+    """
+    return set(value)
+
+
 def _keep_container(value: Any) -> Any:  # noqa: ANN401
     """
     Unpack rule for a field that a subclass annotates as a list again (the parent class asked for a tuple or set).
     """
     return value
+
+
+_CONTAINER_RULES = {tuple: _to_tuple, set: _to_set}
 
 
 def convert_to_payload(dataclass_type: type, msg_id: int | None = None) -> None:
@@ -62,12 +79,13 @@ def convert_to_payload(dataclass_type: type, msg_id: int | None = None) -> None:
             msg = f"{dataclass_type.__name__}.{field.name}: default_factory is not supported, use a default value"
             raise NotImplementedError(msg)
         # Arrays and payload lists unpack to a list: restore the container that the type hint asks for.
-        # A converter of our own that was inherited is recomputed for this class, a custom fix_unpack_ rule is kept.
+        # A rule of our own (one of the functions above) that was inherited is recomputed for this class, any other
+        # fix_unpack_ rule - also the builtin tuple or set - is the user's and is kept.
         origin = getattr(type_hints[field.name], "__origin__", None)
         inherited = getattr(dataclass_type, f"fix_unpack_{field.name}", None)
-        if inherited is None or inherited in (tuple, set, _keep_container):
-            if origin in (tuple, set):
-                setattr(dataclass_type, f"fix_unpack_{field.name}", staticmethod(origin))
+        if inherited is None or inherited in (_to_tuple, _to_set, _keep_container):
+            if origin in _CONTAINER_RULES:
+                setattr(dataclass_type, f"fix_unpack_{field.name}", staticmethod(_CONTAINER_RULES[origin]))
             elif inherited is not None:
                 setattr(dataclass_type, f"fix_unpack_{field.name}", staticmethod(_keep_container))
     setattr(sys.modules[dataclass_type.__module__], dataclass_type.__name__, vp_compile(dataclass_type))
